@@ -175,7 +175,9 @@ def gen_tcp_scenario(rng, segmented):
             ops += ["eof tx=0", "procall"]
         elif end < 0.3:
             ops += ["reset tx=0", "procall"]
-        ops += ["adv 3000", "tick", "adv 7000", "tick", "cancel"]
+        # let every retransmission reach the wire completely before the next timer fires
+        flushes = ["procall"] * (16 if seg else 2) + (["pendingwrite"] + ["procall"] * (16 if seg else 2) if pw else [])
+        ops += ["adv 3000", "tick"] + flushes + ["adv 7000", "tick"] + flushes + ["cancel"]
         return ops
     return build(segmented)
 
